@@ -733,7 +733,7 @@ Section MixedLazy.
     step1 fn rtl fuel w (PDel p) = (w', None) -> LSIMP w' /\ MS w' /\ NOACT w'.
   Proof.
     intros HML Hnr H. pose proof HML as (Hinv & Hna & HS & HM).
-    destruct (PropGrowMore.del_shape fn rtl fuel w p w' Hinv Hna Hnr H) as (pr & Hp & Pw & Gw & Sw & _ & Hevs).
+    destruct (PropGrowMore.del_shape fn rtl fuel w p w' Hinv Hnr H) as (pr & Hp & Pw & Gw & Sw & _ & Hevs).
     (* every binding of w' is a binding of w *)
     assert (Gsub : forall c x, get_bind w' c = Some x -> get_bind w c = Some x).
     { intros c x Hx. destruct (pr_updater pr) as [bp|] eqn:Hu.
